@@ -145,6 +145,14 @@ def families(thorough):
             s.append(Case(t, stop='X', params=st))
             s.append(Case(t, stop='X', params=st, roles=(1, 1)))
     F['params'] = s
+    # -- the client's socket vanishes (reads hit EOF and every write to it fails) right after its last message
+    s = []
+    for t in (['select'], ['begin', 'select'], ['begin'], ['set'], ['copyin'], ['copyin', 'd'], ['copyout'], ['P', 'B', 'E', 'S'], ['begin', 'P', 'B', 'E', 'S'], ['Ps', 'Bs', 'E', 'S'],
+              ['begin', 'error'], ['prepare'], ['setrole'], ['select', 'select2'], ['multi'], ['Ps', 'S']):
+        s.append(Case(t, stop='drop'))
+        s.append(Case(t, stop='drop', mode='session'))
+        s.append(Case(t, stop='drop', cache=4))
+    F['drops'] = s
     # -- the shutdown broadcast arriving at any point of a session
     s = []
     for t in (['select'], ['select', 'select2'], ['begin', 'select', 'commit'], ['begin', 'select', 'commit', 'select2'], ['P', 'B', 'E', 'S', 'select'], ['begin', 'P', 'B', 'E', 'S', 'commit'],
@@ -235,6 +243,7 @@ DESCR = {
     'plugins': 'query parser on, the plugin verdict (allow / deny / intercept) of every parsed statement SYMBOLIC',
     'status': 'statements after each of which the backend reports a SYMBOLIC transaction status (any status PostgreSQL can reach from the previous one)',
     'params': 'sessions of a client whose startup values of tracked parameters differ from the servers\' (incl. a value with a quote), SETs of tracked and untracked parameters outside and inside BEGIN, on one server and on two (either may serve each transaction)',
+    'drops': 'sessions whose client socket is gone for good right after its last message: pgcat\'s writes of the replies fail, then its read hits EOF',
     'shutdown': 'sessions during which the shutdown broadcast may arrive at any select! (solver\'s choice, either polling order)',
     'timeouts': 'transactions of a client while idle_client_in_transaction_timeout is configured: at every read inside the transaction loop the deadline fires or not (solver\'s choice), afterwards the session goes on; and sessions with statement_timeout configured in which a slow statement is or is not answered in time',
     'two-clients': 'a first client (tracked-parameter SETs, named statements with caching on, an open transaction / COPY / session state at EOF) followed by a second client on the same server connections with its own parameters, statement names and requests',
